@@ -281,3 +281,36 @@ def band_pair(ctx, A, B):
         c = cross(A.n, B.n)
         cc = norm2(c)
         ctx.assume(Or(cc == 0, cc >= MARGIN * MARGIN * norm2(A.n) * norm2(B.n)))
+
+
+def band_flat_body(ctx, f, K, Kbody):
+    """admissibility of a flat f against a convex body K (reference object) whose concrete description is Kbody
+    (bodies.Body or bodies.Poly2, used only for its combinatorics: edges as vertex index pairs)"""
+    # anchors of f against K, vertices of K against f
+    for x in anchors(f):
+        band_point(ctx, K, x)
+    if f.kind != 'Point':
+        for v in K.v:
+            band_point(ctx, f, v)
+    if f.kind == 'Point':
+        return
+    # f against every edge (as a segment) and against the carrier planes of K
+    if K.kind == 'ConvexPolygon':
+        edges = K.edges()
+        planes = [RPlane(K.p, K.n)]
+    else:
+        idx = {v: i for i, v in enumerate(Kbody.verts)}
+        edges = [(K.v[idx[a]], K.v[idx[b]]) for a, b in Kbody.edges]
+        planes = [RPlane(p0, n) for n, p0 in K.oriented]
+    for a, b in edges:
+        band_pair(ctx, f, RSegment(a, b))
+    for P in planes:
+        if f.kind == 'Plane':
+            c = cross(f.n, P.n)
+            cc = norm2(c)
+            ctx.assume(Or(cc == 0, cc >= MARGIN * MARGIN * norm2(f.n) * norm2(P.n)))
+            band_point(ctx, P, f.p)
+        else:
+            q = dot(P.n, f.d)
+            _band0(ctx, q, norm2(P.n) * norm2(f.d))
+            band_point(ctx, P, f.p)
